@@ -46,7 +46,11 @@ type HS struct {
 	MaxEnds    int // channel ends per chain
 	MaxCommits int
 	Stale      bool
-	link       *ksim.Link
+	// DupTry narrows the alphabet to one honest INIT on chain 0 and up to two honest TRYs on chain 1 (two relayers
+	// answering the same INIT) with all ACK / CONFIRM / close variants; channel ids are asymmetric (an untracked
+	// dangling INIT on chain 1 takes channel-0 there).
+	DupTry bool
+	link   *ksim.Link
 }
 
 func (s *HS) Chains() int { return 2 }
@@ -57,6 +61,9 @@ func (s *HS) Init(wk *ksim.Worker) *ksim.World {
 	w.Ext = &hsExt{}
 	l := w.SetupClients(0, 1)
 	w.SetupConnection(l, 0)
+	if s.DupTry {
+		ksim.MustOK("dangling chan init", w.Tx(1, channeltypes.NewMsgChannelOpenInit("mock", ibcmock.Version, channeltypes.UNORDERED, []string{l.ConnB}, "mock", ksim.Signer)))
+	}
 	w.Sync(1, l.ClientB, 0)
 	w.Sync(0, l.ClientA, 1)
 	plInitMu.Lock()
@@ -103,14 +110,33 @@ func (s *HS) heights(w *ksim.World, dst int) []int {
 }
 
 var hsOrders = []channeltypes.Order{channeltypes.UNORDERED, channeltypes.ORDERED}
-var hsVersions = []string{ibcmock.Version, "other-version"}
+
+// the empty version is offered only as the counterparty version of an ACK (index 2): it passes ValidateBasic and
+// must be rejected by the proof unless the counterparty end really holds it
+var hsVersions = []string{ibcmock.Version, "other-version", ""}
 
 func (s *HS) Ops(w *ksim.World) []ksim.Op {
 	e := w.Ext.(*hsExt)
 	var ops []ksim.Op
 	for ch := 0; ch < 2; ch++ {
 		mine, theirs := s.ends(w, ch), s.ends(w, 1-ch)
-		if len(mine) < s.MaxEnds {
+		if s.DupTry {
+			if ch == 0 && len(mine) < 1 {
+				ops = append(ops, ksim.Op{K: "init", A: []int{0, 0}}, ksim.Op{K: "init", A: []int{0, 1}})
+			}
+			if ch == 1 && len(mine) < 2 {
+				hs := s.heights(w, ch)
+				for ti, t := range theirs {
+					if c, ok := s.channel(w, 0, t.ID); ok {
+						oi := 0
+						if c.Ordering == channeltypes.ORDERED {
+							oi = 1
+						}
+						ops = append(ops, ksim.Op{K: "try", A: []int{ch, ti, oi, 0, hs[0]}})
+					}
+				}
+			}
+		} else if len(mine) < s.MaxEnds {
 			for oi := range hsOrders {
 				ops = append(ops, ksim.Op{K: "init", A: []int{ch, oi}})
 			}
@@ -118,7 +144,7 @@ func (s *HS) Ops(w *ksim.World) []ksim.Op {
 				for _, ph := range s.heights(w, ch) {
 					// honest parameters plus each wrong-but-plausible one: (order idx, version idx) variants
 					for oi := range hsOrders {
-						for vi := range hsVersions {
+						for vi := range hsVersions[:2] {
 							ops = append(ops, ksim.Op{K: "try", A: []int{ch, ti, oi, vi, ph}})
 						}
 					}
@@ -128,7 +154,7 @@ func (s *HS) Ops(w *ksim.World) []ksim.Op {
 		for mi := range mine {
 			for ti := range theirs {
 				for _, ph := range s.heights(w, ch) {
-					ops = append(ops, ksim.Op{K: "ack", A: []int{ch, mi, ti, 0, ph}}, ksim.Op{K: "ack", A: []int{ch, mi, ti, 1, ph}})
+					ops = append(ops, ksim.Op{K: "ack", A: []int{ch, mi, ti, 0, ph}}, ksim.Op{K: "ack", A: []int{ch, mi, ti, 1, ph}}, ksim.Op{K: "ack", A: []int{ch, mi, ti, 2, ph}})
 				}
 			}
 			for _, ph := range s.heights(w, ch) {
@@ -144,7 +170,26 @@ func (s *HS) Ops(w *ksim.World) []ksim.Op {
 }
 
 func (s *HS) Apply(w *ksim.World, op ksim.Op) ksim.Result {
+	// an OPEN end may only still become CLOSED and a CLOSED end is final: nothing else of their stored value may change
+	settled := map[int]string{}
+	for i, end := range w.Ext.(*hsExt).Ends {
+		if c, found := s.channel(w, end.Chain, end.ID); found && (c.State == channeltypes.OPEN || c.State == channeltypes.CLOSED) {
+			c.State = channeltypes.UNINITIALIZED
+			bz, _ := c.Marshal()
+			settled[i] = string(bz)
+		}
+	}
 	r := s.apply(w, op)
+	for i, end := range w.Ext.(*hsExt).Ends {
+		if was, ok := settled[i]; ok {
+			c, found := s.channel(w, end.Chain, end.ID)
+			c.State = channeltypes.UNINITIALIZED
+			bz, _ := c.Marshal()
+			if e := w.Ext.(*hsExt); (!found || string(bz) != was) && e.Bad == "" {
+				e.Bad = "OPEN-or-CLOSED->rewritten"
+			}
+		}
+	}
 	// history oracle: every end moves only along INIT->OPEN, TRYOPEN->OPEN, non-CLOSED->CLOSED
 	e := w.Ext.(*hsExt)
 	for i := range e.Ends {
@@ -348,11 +393,12 @@ func runC12(c *core.C) {
 	d := core.Pick(c, 0, 1)
 	parts := []ksim.Part{
 		{Name: "1-end-per-chain/stale-proofs", Sc: &HS{MaxEnds: 1, MaxCommits: 3, Stale: true}, Cfg: ksim.Config{MaxDepth: 8 + d}, Share: 0.4},
-		{Name: "2-ends-per-chain/crossing-inits", Sc: &HS{MaxEnds: 2, MaxCommits: 2}, Cfg: ksim.Config{MaxDepth: 6 + d}},
+		{Name: "2-ends-per-chain/crossing-inits", Sc: &HS{MaxEnds: 2, MaxCommits: 2}, Cfg: ksim.Config{MaxDepth: 6 + d}, Share: 0.7},
+		{Name: "one-init/two-trys/asymmetric-ids", Sc: &HS{MaxEnds: 2, MaxCommits: 3, DupTry: true}, Cfg: ksim.Config{MaxDepth: 8 + d}},
 	}
 	ksim.RunParts(c, parts, [][]ksim.Op{
 		{{K: "init", A: []int{0, 0}}, {K: "sync", A: []int{0}}, {K: "try", A: []int{1, 0, 0, 0, 8}}, {K: "sync", A: []int{1}}, {K: "ack", A: []int{0, 0, 0, 0, 8}}, {K: "sync", A: []int{0}}, {K: "confirm", A: []int{1, 0, 9}}},
 	})
-	c.Set("alphabet", "init(chain, ordering) on either chain (crossing INITs) | try(chain, any counterparty end, ordering x version incl. wrong ones, newest or previous consensus height) | ack(chain, own end, any counterparty end, version x2, height) | confirm | close-init | close-confirm | sync(chain); every message stays enabled (duplicates, out-of-order)")
+	c.Set("alphabet", "init(chain, ordering) on either chain (crossing INITs) | try(chain, any counterparty end, ordering x version incl. wrong ones, newest or previous consensus height) | ack(chain, own end, any counterparty end, version in {right, wrong, empty}, height) | confirm | close-init | close-confirm | sync(chain); every message stays enabled (duplicates, out-of-order)")
 	c.Assume("proof targets are judged against the harness's own record of the counterparty chain at the proof height; the application is the repository's mock module")
 }
